@@ -206,11 +206,16 @@ pub(crate) fn repr_cmp_ubig<const B: Word, const ABS: bool>(lhs: &Repr<B>, rhs: 
 
     // case 4: compare the exact values
     let mut rhs: IBig = rhs.clone().into();
-    if lhs.exponent < 0 {
+    let (lhs, rhs) = if lhs.exponent < 0 {
         shl_digits_in_place::<B>(&mut rhs, (-lhs.exponent) as usize);
-        lhs.significand.cmp(&rhs)
+        (lhs.significand.clone(), rhs)
     } else {
-        shl_digits::<B>(&lhs.significand, lhs.exponent as usize).cmp(&rhs)
+        (shl_digits::<B>(&lhs.significand, lhs.exponent as usize), rhs)
+    };
+    if ABS {
+        lhs.abs_cmp(&rhs)
+    } else {
+        lhs.cmp(&rhs)
     }
 }
 
@@ -247,11 +252,15 @@ pub(crate) fn repr_cmp_ibig<const B: Word, const ABS: bool>(lhs: &Repr<B>, rhs: 
     }
 
     // case 4: compare the exact values
-    if lhs.exponent < 0 {
-        lhs.significand
-            .cmp(&shl_digits::<B>(rhs, (-lhs.exponent) as usize))
+    let (lhs, rhs) = if lhs.exponent < 0 {
+        (lhs.significand.clone(), shl_digits::<B>(rhs, (-lhs.exponent) as usize))
     } else {
-        shl_digits::<B>(&lhs.significand, lhs.exponent as usize).cmp(rhs)
+        (shl_digits::<B>(&lhs.significand, lhs.exponent as usize), rhs.clone())
+    };
+    if ABS {
+        lhs.abs_cmp(&rhs)
+    } else {
+        lhs.cmp(&rhs)
     }
 }
 
